@@ -824,6 +824,9 @@ func (c *Ctx) execConvert(fr *Frame, x *ssa.Convert, st *State, reach string) {
 				ln = "(runecount " + c.term(v) + ")"
 			}
 			c.arr(st, c.sorts.ElemArrayT(ts.Elem()), c.sorts.Of(ts.Elem()))
+			// ground instances of the length axioms (the quantified ones are dropped by the reduced query)
+			sv := c.term(v)
+			c.assume(reach, fmt.Sprintf("(and (<= 0 (runecount %s)) (<= (runecount %s) (strlen %s)) (<= 0 (strlen %s)) (<= (strlen %s) MAXLEN))", sv, sv, sv, sv, sv))
 			fr.vals[x] = Val{T: c.define(name, "Slice", fmt.Sprintf("(mk_slice %s 0 %s %s)", ref, ln, ln)), Typ: to}
 			return
 		}
